@@ -27,6 +27,8 @@ def run(ctx, chk):
     P = ctx.program
     chk.rule("C09.R1", "no abort site reachable from executing an instruction can fail", floor=200)
     chk.rule("C09.R2", "every index into the 1 MB memory is < 2^20", floor=100)
+    chk.rule("C09.R4", "segment:offset translation yields an address below 2^20 on every path of the address helper", floor=1)
+    address_helper_rule(ctx, chk)
     chk.rule("C09.R3", "every interpreter outcome is a State or a reported ParseError", floor=1)
     sites = Sites()
     # most general contexts of the helpers
@@ -93,3 +95,73 @@ def file_of(ctx, fnname):
         if f:
             return f["span"].rsplit(":", 2)[0]
     return fnname
+
+
+def address_helper_rule(ctx, chk):
+    """R4.  Every memory index of the interpreter goes through the two-argument address helper(s) of util::address (segment,
+    offset -> physical address).  The census classifies an index where it is used, after the helper's paths have been
+    joined; there an interval like [0, 2^20] is no longer known to be attainable.  Here the helper's own paths are
+    enumerated (its branches forced both ways), with segment and offset free 16-bit values: on each path the result's
+    interval is exact, so a path whose result can reach 2^20 is a definite out-of-range address (with its closed form as
+    witness), and a helper all of whose paths stay below 2^20 is proved."""
+    from absint import Interp, Unsupported
+    from units import machine_state
+    P = ctx.program
+    n = 0
+    for f in P.fns.values():
+        if not f["name"].startswith("util::address::") or f["argc"] != 2:
+            continue
+        sig = P.sigs.get(("lib", f["name"])) or {}
+        if (sig.get("output") or "") != "usize":
+            continue
+        # a two-argument helper that adds its arguments unscaled is an increment, not a segment:offset translation
+        out = []
+        budget = [32]
+
+        def explore(force):
+            if budget[0] <= 0:
+                raise Unsupported("too many paths")
+            budget[0] -= 1
+            I = Interp(P)
+            I.record_switch = True
+            I.force_switch = dict(force)
+            st = machine_state(I, P)
+            r = I.run_fn(f, [I.new_atom("u16", "seg"), I.new_atom("u16", "off")], st)
+            nxt = None
+            for e in I.events:
+                if e.kind == "switch" and e.fn == f["name"] and getattr(e, "depth", 1) == 1 and e.bb not in force and e.val.kind == "int" and not e.val.is_const():
+                    nxt = e
+                    break
+            if nxt is None:
+                if r is not None:
+                    out.append(r)
+                return
+            for v in [v for v, _ in nxt.arms] + ["else"]:
+                f2 = dict(force)
+                f2[nxt.bb] = v
+                explore(f2)
+        unit = f["name"].split("::")[-1]
+        try:
+            explore({})
+        except Unsupported as e:
+            chk.undecided_("C09.R4", unit, str(e))
+            continue
+        scaled = any(r.kind == "int" and r.aff is not None and any(k == 16 for _, k in r.aff.terms) for r in out) or \
+            any(r.kind == "int" and r.aff is not None and "16*seg" in r.aff.pretty() for r in out)
+        if not scaled:
+            continue
+        n += 1
+        where = f["span"].rsplit(":", 2)[0]
+        bad = [r for r in out if r.kind == "int" and r.hi >= (1 << 20) and r.exact]
+        unk = [r for r in out if r.kind != "int" or (r.hi >= (1 << 20) and not r.exact)]
+        if bad:
+            r = bad[0]
+            chk.violation("C09.R4", unit, "address-can-reach-1MB", f"{f['name']}: on one of its {len(out)} paths the result is {r.aff.pretty() if r.aff is not None else '?'} "
+                          f"with attainable range [{r.lo},{r.hi}]: an index of {r.hi:#x} is outside the 1 MB memory (abort instead of wrapping to 0)", where,
+                          witness=f"result {r.hi:#x}")
+        elif unk:
+            chk.undecided_("C09.R4", unit, "the result of some path is not bounded below 2^20 by the interval domain")
+        else:
+            chk.ok("C09.R4", unit, f"{len(out)} path(s), every result within [0,{max(r.hi for r in out):#x}]")
+    if n == 0:
+        chk.undecided_("C09.R4", "util::address", "no segment:offset helper found")
